@@ -325,6 +325,7 @@ fn any_violation_of_class(mapping: &[u8], class: &str, ops_hint: &[DiskOp]) -> O
 }
 
 pub fn minimise(v: &Violation) -> Violation {
+    start_minimise_clock(40);
     let Some(mapping) = bytes_from_json(&v.case["mapping"]) else { return v.clone() };
     let ops: Vec<DiskOp> = v.case["ops"].as_array().map(|a| a.iter().filter_map(DiskOp::from_json).collect()).unwrap_or_default();
     let class = v.class.clone();
